@@ -105,6 +105,10 @@ def gen_case(rng, tier):
     ys = list(range(nc)) + [rng.randrange(nc) for _ in range(N - nc)]
     rng.shuffle(ys)
     stat_rows = [sorted(rng.sample(range(n0), rng.randint(2, 4))) for _ in range(N)]
+    if rng.random() < 0.35:
+        # segments without frames (all frames removed by VAD, empty partition): valid statistics
+        for _ in range(rng.randint(1, 2)):
+            stat_rows[rng.randrange(N)] = []
     k = rng.randint(1, 3)
     init_c = sig6(X0[rs.choice(n0, size=k, replace=False)] + rs.randn(k, d) * 0.05 * scale)
     n_ops = rng.randint(5, 30 if tier == "thorough" else 16)
@@ -126,7 +130,7 @@ def gen_case(rng, tier):
             continue
         o = {"op": name, "np_seed": rng.randint(0, 2 ** 31 - 1), "X": rng.choice(["X0", "X1"]),
              "backend": rng.choice(["np", "np", "da", "bag"]),
-             "sel": sorted(rng.sample(range(N), rng.randint(1, 3))),
+             "sel": rng.sample(range(N), rng.randint(1, min(5, N))),
              "it": rng.randint(1, 2), "flag": rng.random() < 0.5,
              "max_iter": rng.choice([0, 0, 1, 2, 3]),
              "init": rng.choice(["array", "array", "random"]),
@@ -177,7 +181,9 @@ class Pool:
         self.prior.weights = A(case["prior"]["weights"])
         self.prior.means = A(case["prior"]["means"])
         self.prior.variances = A(case["prior"]["variances"])
-        self.stats = [self.ubm.acc_stats(self.X0[rows].copy()) for rows in case["stat_rows"]]
+        self.stats = [self.ubm.acc_stats(self.X0[rows].copy() if rows else
+                                         np.zeros((0, self.X0.shape[1])))
+                      for rows in case["stat_rows"]]
         self.models = {}
 
     def X(self, name):
